@@ -199,7 +199,8 @@ PROPS['C14'] = Prop(
 )
 
 PROPS['C09'] = Prop(
-    functions=['policy:Enforcer.set_rules', 'policy:pick_default_policy_file', 'policy:Enforcer._is_directory_updated'],
+    functions=['policy:Enforcer.set_rules', 'policy:pick_default_policy_file', 'policy:Enforcer._is_directory_updated',
+               'policy:Enforcer.load_rules#idle'],
     bounded=[('bounded.loader', 'c09')],
     level='other',
     technique='bounded stand-in for the load sequence (the loader contracts over the ghost file system are not closed); set_rules proved deductively',
@@ -253,7 +254,7 @@ PROPS['C11'] = Prop(
 
 PROPS['C12'] = Prop(
     functions=['policy:Enforcer._handle_deprecated_rule', '_checks:AndCheck.add_check', '_checks:OrCheck.add_check',
-               'policy:Enforcer.register_default', 'policy:Enforcer._record_file_rules', 'policy:Enforcer._load_policy_file'],
+               'policy:Enforcer.register_default', 'policy:Enforcer._record_file_rules', 'policy:Enforcer._load_policy_file', 'policy:Enforcer.load_rules#idle'],
     bounded=[('bounded.loader', 'c12')],
     level='other',
     technique='contract-based frame obligations on the merging function (own VC generator + z3) + bounded interleavings for idempotence',
